@@ -149,6 +149,7 @@ class Interp {
   std::string exp_text_piece(const MExp& e) const {
     if (e.is_mon) return "REQUIRE_DESTRUCTION(";
     if (e.s.lit >= 0) return lit_forms()[e.s.lit].text;
+    return "wmock_s<" + std::to_string(e.s.slot) + ">(s.obj)" + site_text_piece(e.s.func);
     return site_text_piece(e.s.func);
   }
   static std::string arg_text(int func, int idx, int v) {
